@@ -242,6 +242,7 @@ def check(prog, rep):
 
     selection_history_free(prog, r1, gm_info)
     rep.guarded(rule_scan_uses_own_move_set, prog, rep)
+    rep.guarded(rule_reference_distance_is_shortest, prog, rep)
     flip_twins(prog, r1, t, model, backbone, rank, moved_names)
 
     # ------------------------------------------------------------------ R2
@@ -689,3 +690,48 @@ def rule_scan_uses_own_move_set(prog, rep):
                 bad.append(f"torsion {anglenum} ({dihedrals[anglenum] if isinstance(anglenum, int) else '?'}): rotated {moved}, its far side is {want}")
         r.add(f"scan|{order_name}", bool(rotations) and not bad, f"{order_name}: {len(rotations)} rotations" + ("; each moves the far side of its own torsion" if not bad else
               "; " + "; ".join(bad[:3])), where)
+
+
+def rule_reference_distance_is_shortest(prog, rep):
+    """R1 ranks the atoms by their graph distance to CA.  The repository obtains that number from utilities.shortest_path; here the function
+    is evaluated on the side-chain graphs that have rings (several paths to CA), with the atoms and neighbours listed in many different
+    orders - the order of the input file decides the order of Atom.bonds - and the length is compared with a breadth-first distance."""
+    import random
+    from ..guards import Flow
+    from ..objinterp import ObjRunner
+    r = rep.rule("R7", "the distance to CA that ranks the atoms is the shortest one, whatever the order in which atoms and bonds are listed", floor=40)
+    fi = prog.func("utilities.py", "shortest_path")
+    where = f"pdb2pqr/utilities.py:{fi.node.lineno} (shortest_path)"
+    graphs = {
+        "PHE": [("CA", "CB"), ("CB", "CG"), ("CG", "CD1"), ("CG", "CD2"), ("CD1", "CE1"), ("CD2", "CE2"), ("CE1", "CZ"), ("CE2", "CZ")],
+        "TRP": [("CA", "CB"), ("CB", "CG"), ("CG", "CD1"), ("CG", "CD2"), ("CD1", "NE1"), ("NE1", "CE2"), ("CD2", "CE2"), ("CD2", "CE3"), ("CE2", "CZ2"),
+                ("CE3", "CZ3"), ("CZ2", "CH2"), ("CZ3", "CH2")],
+        "PRO": [("N", "CA"), ("CA", "CB"), ("CB", "CG"), ("CG", "CD"), ("CD", "N")],
+        "HIS": [("CA", "CB"), ("CB", "CG"), ("CG", "ND1"), ("CG", "CD2"), ("ND1", "CE1"), ("CD2", "NE2"), ("CE1", "NE2")],
+    }
+    for gname, edges in graphs.items():
+        names = sorted({x for e in edges for x in e})
+        adj = {n: {b if a == n else a for a, b in edges if n in (a, b)} for n in names}
+        dist = bfs(adj, "CA")
+        orders = [("as in the table", [x for e in edges for x in e]), ("alphabetical", names), ("reverse alphabetical", names[::-1])]
+        for k in range(9):
+            sh = list(names)
+            random.Random(1000 + k).shuffle(sh)
+            orders.append((f"shuffle {k}", sh))
+        for oname, order in orders:
+            listing = list(dict.fromkeys(order))
+            graph = {n: sorted(adj[n], key=listing.index) for n in listing}
+            run = ObjRunner(prog, "utilities.py")
+            wrong = []
+            for n in listing:
+                try:
+                    path = run.call_function("utilities.py", "shortest_path", graph, n, "CA")
+                except Flow as fl:
+                    wrong.append(f"{n}: stops with {fl.value}")
+                    continue
+                if not isinstance(path, list):
+                    wrong.append(f"{n}: returns {path!r}")
+                elif len(path) - 1 != dist[n] or path[0] != n or path[-1] != "CA" or any(b not in adj[a] for a, b in zip(path, path[1:])):
+                    wrong.append(f"{n}: {path} (shortest has {dist[n]} bonds)")
+            r.add(f"graph|{gname}|{oname}", not wrong, f"{gname} side chain, atoms listed {oname}: shortest_path gives the breadth-first distance for {len(listing)} atoms" if not wrong else
+                  f"{gname} side chain, atoms listed {' '.join(listing)}: {wrong[:3]} -- the atoms beyond a torsion are then not all rotated with it", where)
